@@ -74,6 +74,37 @@ def errors_for(case, code, rng):
         E = all_errors(n, 0, 4 ** n)
         idx = rng.permutation(len(E))      # decode in a scrambled order
         return [E[i] for i in idx]
+    if mode == 'syndrome_weights':
+        # errors whose syndrome has a prescribed number of defects per sector
+        # (around the multiples of 256, where byte-sized counters wrap)
+        from vf import gf2
+        H = gf2.to_dense(code.stabilizer_matrix)
+        for target_w in case['syndrome_weights']:
+            for sector in ('x_err', 'z_err'):
+                # X errors are seen by the generators with a Z part and vice versa
+                cols = slice(n, 2 * n) if sector == 'x_err' else slice(0, n)
+                rows = np.nonzero(H[:, cols].sum(axis=1) > 0)[0]
+                sub = H[rows][:, cols]
+                rr = gf2.rows_to_ints(sub)
+                for attempt in range(6):
+                    if target_w > len(rows):
+                        break
+                    pick = rng.choice(len(rows), size=target_w, replace=False)
+                    bits = [0] * len(rows)
+                    for i in pick:
+                        bits[int(i)] = 1
+                    x0 = gf2.solve(rr, n, bits)
+                    if x0 is None:
+                        continue
+                    e = np.zeros(2 * n, dtype=np.uint8)
+                    part = np.array([(x0 >> q) & 1 for q in range(n)], dtype=np.uint8)
+                    if sector == 'x_err':
+                        e[:n] = part
+                    else:
+                        e[n:] = part
+                    out.append(e)
+                    break
+        return out
     if mode == 'weight12':
         out.append(np.zeros(2 * n, dtype=np.uint8))
         singles = []
